@@ -490,3 +490,7 @@ impl SignatureContext<'_> {
         })
     }
 }
+
+// verification hook (compiled only under `cargo kani`, see /verif/MANIFEST.json hooks)
+#[cfg(kani)]
+include!(concat!(env!("VERIF_KANI_INC"), "/s3s_ops_signature.rs"));
